@@ -288,6 +288,9 @@ def call_value(I: Interp, f, args, kwargs, node=None):
         return V.havoc_call(I, f.what, args, kwargs, node)
     if callable(f):
         # spec function or python builtin registered in BUILTINS
+        for bn, bf in BUILTINS.items():
+            if bf is f and callable(V.c.callees.get(bn)) and not V.in_contract_expr:
+                return V.c.callees[bn](I, args, kwargs, node)  # assumed contract of the builtin given by the sidecar
         if any(isinstance(a, Opaque) for a in args) and f in _OPAQUE_TOLERANT:
             return Opaque("builtin")
         return f(I, *args, **kwargs)
@@ -550,7 +553,7 @@ BUILTINS.update({
     "len": b_len, "zip": b_zip, "enumerate": b_enumerate, "reversed": b_reversed, "iter": b_iter, "next": b_next,
     "list": b_list, "tuple": b_tuple, "set": b_set, "dict": b_dict, "max": b_max, "min": b_min, "range": b_range,
     "bool": b_bool, "int": b_int, "str": b_str, "repr": b_repr, "sum": b_sum, "sorted": b_sorted,
-    "getattr": b_getattr, "print": b_print, "any": b_any, "all": b_all, "type": b_type, "id": b_id, "callable": b_callable,
+    "getattr": b_getattr, "print": b_print, "any": b_any, "all": b_all, "map": (lambda I, f, *its: Opaque("map")), "type": b_type, "id": b_id, "callable": b_callable,
     "True": True, "False": False, "None": None, "Ellipsis": Ellipsis,
 })
 BUILTINS["open"] = FuncRef("open")
